@@ -457,9 +457,13 @@ impl<T: FromPrimitive> FromPrimitive for Counted<T> {
 trait HElem: Ord + Copy + std::fmt::Debug + FromPrimitive + Zero + num_traits::NumOps + Elem + Send + Sync {
     const FLOAT: bool;
     fn f(&self) -> f64;
+    /// exact value for integer types (geometry of integer bins is judged exactly)
+    fn int(&self) -> Option<i128> {
+        None
+    }
 }
 macro_rules! helem_int {
-    ($($t:ident),*) => {$( impl HElem for $t { const FLOAT: bool = false; fn f(&self) -> f64 { *self as f64 } } )*};
+    ($($t:ident),*) => {$( impl HElem for $t { const FLOAT: bool = false; fn f(&self) -> f64 { *self as f64 } fn int(&self) -> Option<i128> { Some(*self as i128) } } )*};
 }
 helem_int!(i32, i64, u16, usize);
 impl HElem for N64 {
@@ -637,7 +641,11 @@ fn c12_one<T: HElem, S: Strat<Elem = T>, SC: Strat<Elem = Counted<T>>>(acc: &mut
         acc.violation("last_edge", None, cj(format!("last edge {} is not strictly above the data maximum {} (width {}, {} bins)", last.show(), mxv.show(), w.show(), nbins)));
         return false;
     }
-    if last.f() - mxv.f() > w.f() + tol {
+    let over = match (last.int(), mxv.int(), w.int()) {
+        (Some(l), Some(m), Some(ww)) => l - m > ww,
+        _ => last.f() - mxv.f() > w.f() + tol,
+    };
+    if over {
         acc.violation("last_edge", None, cj(format!("last edge {} exceeds the maximum {} by more than one bin width {}", last.show(), mxv.show(), w.show())));
         return false;
     }
@@ -645,7 +653,11 @@ fn c12_one<T: HElem, S: Strat<Elem = T>, SC: Strat<Elem = Counted<T>>>(acc: &mut
         for i in 0..nbins {
             let r = bins.index(i);
             let d = r.end.f() - r.start.f();
-            if (d - w.f()).abs() > tol {
+            let unequal = match (r.end.int(), r.start.int(), w.int()) {
+                (Some(e), Some(st), Some(ww)) => e - st != ww,
+                _ => (d - w.f()).abs() > tol,
+            };
+            if unequal {
                 acc.violation("equal_width", None, cj(format!("bin {} = [{}, {}) has width {} but bin_width() = {}", i, r.start.show(), r.end.show(), d, w.show())));
                 return false;
             }
@@ -744,7 +756,7 @@ fn gen_data<T: HElem>(rng: &mut Rng, n: usize, class: usize) -> (Vec<T>, &'stati
     } else {
         let nonneg = T::from_i64(-1).is_none();
         let off = if nonneg { 1000 } else { 0 };
-        match class % 8 {
+        match class % 9 {
             0 => ((0..n).map(|i| fi(off + i as i64)).collect(), "0..n"),
             1 => ((0..n).map(|_| fi(off + rng.range(0, 10))).collect(), "small range (often width 0)"),
             2 => ((0..n).map(|_| fi(off + rng.range(0, 10 * n as i64 + 10))).collect(), "range 10n"),
@@ -752,7 +764,20 @@ fn gen_data<T: HElem>(rng: &mut Rng, n: usize, class: usize) -> (Vec<T>, &'stati
             4 => ((0..n).map(|_| fi(off + if rng.chance(0.8) { 500 } else { rng.range(0, 1000) })).collect(), "heavy ties (zero IQR)"),
             5 => ((0..n).map(|_| fi(if nonneg { rng.range(0, 30000) } else { rng.range(-1_000_000, 1_000_000) })).collect(), "wide"),
             6 => ((0..n).map(|i| fi(off + (i as i64 % 7) * 37)).collect(), "7 levels"),
-            _ => ((0..n).map(|_| fi(off + (rng.normal() * 100.0) as i64 + 400)).collect(), "rounded normal"),
+            7 => ((0..n).map(|_| fi(off + (rng.normal() * 100.0) as i64 + 400)).collect(), "rounded normal"),
+            _ => {
+                // 64-bit data spanning a large part of the type; max + range (>= any bin width) and twice the range stay
+                // representable, as the property requires
+                if T::from_i64(6_000_000_000_000_000_000).is_some() && T::from_usize(usize::MAX).is_none() {
+                    if rng.chance(0.5) {
+                        ((0..n).map(|_| fi((rng.unit() * 3.0e18) as i64)).collect(), "i64 in [0, 3e18]")
+                    } else {
+                        ((0..n).map(|_| fi(((rng.unit() - 0.5) * 4.0e18) as i64)).collect(), "i64 in [-2e18, 2e18]")
+                    }
+                } else {
+                    ((0..n).map(|_| fi(off + rng.range(0, 20_000))).collect(), "range 2e4")
+                }
+            }
         }
     }
 }
@@ -982,6 +1007,18 @@ fn main() {
             2 => c12_case::<u16>(rng, acc, thorough),
             3 => c12_case::<usize>(rng, acc, thorough),
             _ => c12_case::<N64>(rng, acc, thorough),
+        });
+    }
+    if prop == "C12" {
+        // Freedman-Diaconis / Auto on short one-decimal lattices with mixed signs: range / width lands within an ulp of
+        // an integer for a small fraction of these sets
+        r.section("fd_decimal_lattice", r.args.n(60_000, 1_500_000), |_k, rng, acc| {
+            let n = *rng.pick(&[8usize, 8, 8, 7, 9, 12, 16]);
+            let data: Vec<N64> = (0..n).map(|_| n64(rng.range(-300, 300) as f64 / 10.0)).collect();
+            SKIPPED.with(|s| s.set(false));
+            c12_one::<N64, FreedmanDiaconis<N64>, FreedmanDiaconis<Counted<N64>>>(acc, &data, "one-decimal lattice, mixed signs", false);
+            c12_one::<N64, Auto<N64>, Auto<Counted<N64>>>(acc, &data, "one-decimal lattice, mixed signs", false);
+            acc.nontrivial(h64(&data.iter().map(|x| x.raw().to_bits()).collect::<Vec<_>>()));
         });
     }
     r.finish("hist", vec![]);
